@@ -22,6 +22,20 @@ def load_mutants():
     for fn in sorted(os.listdir(d)):
         if fn.endswith('.json'):
             ms.extend(json.load(open(os.path.join(d, fn))))
+    # independently written breaking changes (sub-agents), kept as patches
+    sd = os.path.join(VERIF, 'seeded')
+    if os.path.isdir(sd):
+        for name in sorted(os.listdir(sd)):
+            mp = os.path.join(sd, name, 'meta.json')
+            if not os.path.exists(mp):
+                continue
+            meta = json.load(open(mp))
+            exp = []
+            for c in meta.get('caught_by_rules', []):
+                rule_id, _, inst = c.partition('/')
+                exp.append([rule_id, inst])
+            ms.append({'id': 'seed:' + name, 'props': sorted(set([meta['breaks_property']] + meta.get('properties_reporting', []))),
+                       'patch': os.path.join(sd, name, 'patch.diff'), 'expect': exp[:1] or [['*', '*']]})
     return ms
 
 
@@ -31,6 +45,13 @@ def make_variant(mut, repo=None):
     shutil.copytree(os.path.join(repo, 'src'), os.path.join(tmp, 'src'))
     for f in ('Cargo.toml', 'Cargo.lock'):
         shutil.copy(os.path.join(repo, f), os.path.join(tmp, f))
+    if 'patch' in mut:
+        import subprocess
+        r = subprocess.run(['patch', '-p1', '-s', '-i', mut['patch']], cwd=tmp, capture_output=True, text=True)
+        if r.returncode != 0:
+            shutil.rmtree(tmp, ignore_errors=True)
+            return None, 'patch does not apply'
+        return tmp, None
     edits = mut['edits'] if 'edits' in mut else [mut]
     for e in edits:
         p = os.path.join(tmp, e['file'])
